@@ -730,6 +730,11 @@ func Ite(c, a, b *Term) *Term {
 	if c.Op == ONot {
 		return Ite(c.Args[0], b, a)
 	}
+	if a.Sort.K == KArr {
+		if r := iteArr(c, a, b); r != nil {
+			return r
+		}
+	}
 	// ite(c, x, ite(c, y, z)) = ite(c, x, z)
 	if b.Op == OIte && b.Args[0] == c {
 		return Ite(c, a, b.Args[2])
@@ -1008,4 +1013,37 @@ func AppH(f *FunSig, args ...*Term) *Term {
 		}
 	}
 	return App(f, args...)
+}
+
+// iteArr merges two arrays that share their base and differ in a few concrete positions into one
+// concrete-indexed array with pointwise ite's (keeps selects cheap after state merges).
+func iteArr(c, a, b *Term) *Term {
+	base := func(t *Term) (*Term, *PMap) {
+		if t.Op == OArrMap {
+			return t.Args[0], t.M
+		}
+		return t, nil
+	}
+	ba, ma := base(a)
+	bb, mb := base(b)
+	if ba != bb || (ma == nil && mb == nil) {
+		return nil
+	}
+	keys, ok := DiffKeys(ma, mb, 64)
+	if !ok {
+		return nil
+	}
+	m := mb
+	for _, k := range keys {
+		va := ma.Get(k)
+		if va == nil {
+			va = Select(ba, I(k))
+		}
+		vb := mb.Get(k)
+		if vb == nil {
+			vb = Select(bb, I(k))
+		}
+		m = m.Set(k, Ite(c, va, vb))
+	}
+	return mk(&Term{Op: OArrMap, Sort: a.Sort, Args: []*Term{bb}, M: m})
 }
